@@ -300,11 +300,11 @@ def check_refuse(ctx):
                 st_ = A.enclosing_stmt(n)
                 if isinstance(n.func, ast.Attribute) and OG in A.unparse(A.inline_temporaries(n.func.value, st_, fn)):
                     cand = st_
-            if cand is None or cand in touched or cand.lineno < ehs[0].lineno:
+            if cand is None or cand in touched or A.doc_index(cand) < A.doc_index(ehs[0]):
                 continue
             if A.nnf_sat(A.conj(on_path + A.path_condition(cand, fn))):
                 touched.append(cand)
-    first = min(touched, key=lambda s: s.lineno)
+    first = min(touched, key=lambda s: A.doc_index(s))
     # (a) metadata merge in a try whose handler re-raises, dominating
     merges = [c for c in A.calls_in(fn) if A.call_name(c) == "metadata.merge"]
     ok = False
@@ -369,14 +369,14 @@ def check_refuse(ctx):
         newsize = A.inline_temporaries(rz.args[0], rs[0], fn) if rz.args else None
         ok_app = lo is not None and canon(lo) == canon(parse("len(%s[%s])" % (OG, NM))) and newsize is not None and \
             canon(newsize) in (canon(parse("(len(%s[%s]) + len(table),)" % (OG, NM))), canon(parse("len(%s[%s]) + len(table)" % (OG, NM))))
-        ok_app = ok_app and rs[0].lineno < sa[0].lineno and canon(sa[0].value) == canon(parse("table.as_array()")) and sa[0].targets[0].slice.upper is None
+        ok_app = ok_app and A.doc_index(rs[0]) < A.doc_index(sa[0]) and canon(sa[0].value) == canon(parse("table.as_array()")) and sa[0].targets[0].slice.upper is None
     ctx.check(R, first, "append = resize to old+new, write the new rows after the old ones", ok_app, "resize/assignment do not implement concatenation", key="concat")
     # the comparison helper itself
     cf = ctx.prog.func(SH, "_custom_tbl_dtype_compare", R)
     params = A.param_names(cf)
     zips = [c for c in ast.walk(cf) if isinstance(c, ast.Call) and A.call_name(c) == "zip" and sorted(canon(a) for a in c.args) == sorted(params[:2])]
     lens = [s for s in A.walk_local(cf) if isinstance(s, ast.If) and A.nnf(s.test) in (A.nnf_of_src("len(%s) != len(%s)" % (params[0], params[1])), A.nnf_of_src("len(%s) != len(%s)" % (params[1], params[0])))]
-    okl = bool(lens) and isinstance(lens[0].body[0], ast.Return) and A.const_value(lens[0].body[0].value) is False and all(lens[0].lineno < z.lineno for z in zips)
+    okl = bool(lens) and isinstance(lens[0].body[0], ast.Return) and A.const_value(lens[0].body[0].value) is False and all(A.doc_index(lens[0]) < A.doc_index(z) for z in zips)
     if not okl:
         # `return len(a) == len(b) and all(... zip ...)` is the other accepted idiom
         for r_ in [s for s in A.walk_local(cf) if isinstance(s, ast.Return) and isinstance(s.value, ast.BoolOp) and isinstance(s.value.op, ast.And)]:
